@@ -32,6 +32,10 @@ import (
 const (
 	c14SigClobber  = "nonwinning-write-clobbers-winner-attachments" // finding A (see C14_Refuted.v)
 	c14SigPromoted = "promoted-leaf-attachment-swept"               // finding B
+	// the persisted rev tree and the tree a reader loads from it disagree (C14/RevTreePersist.v: reload_identity)
+	c14SigReloadFlagLost  = "revtree-reload-loses-attachment-flag"
+	c14SigReloadFlagAdded = "revtree-reload-invents-attachment-flag"
+	c14SigReloadPlacement = "revtree-reload-changes-body-placement"
 )
 
 type c14Meta struct {
@@ -55,6 +59,8 @@ type c14DocObs struct {
 	leaves  []c14Leaf
 	nonLeaf []string
 	all     map[string]bool
+	// non-current leaves as PERSISTED in _sync.history: rev -> (index listed in hasAttachments, body under bodyKeyMap)
+	pers map[string][2]bool
 }
 
 type c14Obs struct {
@@ -113,6 +119,7 @@ type c14Op struct {
 	pushRev string
 	tag     int
 	label   string
+	big     bool // the body is larger than MaximumInlineBodySize: stored out of line when the revision does not win
 }
 
 type c14Env struct {
@@ -143,6 +150,9 @@ type c14Env struct {
 	kinds    map[string]bool
 	rec      *vRecorder
 	caseDesc string
+	bigMode  bool     // the case may carry large bodies and is emitted as CHistR (with the persisted view of the leaves)
+	bigRevs  []string // revisions written with a large body
+	persCoq  []string
 }
 
 var c14Names = []string{"a", "b", "c"}
@@ -179,6 +189,7 @@ func (e *c14Env) startCase(desc string) {
 	e.nontriv = false
 	e.kinds = map[string]bool{}
 	e.caseDesc = desc
+	e.bigMode, e.bigRevs, e.persCoq = false, nil, nil
 	e.last = e.observe()
 }
 
@@ -299,6 +310,7 @@ func (e *c14Env) observe() c14Obs {
 		}
 		d.exists = true
 		d.cur = doc.GetRevTreeID()
+		e.observePersisted(docid, doc, d)
 		leafSet := map[string]bool{}
 		for _, l := range doc.History.GetLeaves() {
 			leafSet[l] = true
@@ -415,6 +427,76 @@ func (e *c14Env) observe() c14Obs {
 	return o
 }
 
+// observePersisted reads the rev tree as it is stored (_sync.history: parallel index lists) and compares it with the
+// tree the document was just loaded with: the per-revision attachment flag and the placement of the body (inline
+// in bodymap / out of line under bodyKeyMap) survive the reload, for every revision (reload_identity, unmarshal_flag)
+func (e *c14Env) observePersisted(docid string, doc *Document, d *c14DocObs) {
+	d.pers = map[string][2]bool{}
+	xattrs, _, err := e.col.dataStore.GetXattrs(e.ctx, docid, []string{base.SyncXattrName})
+	if err != nil {
+		e.failRec("revtree_reload", "persisted-revtree-unreadable", e.failInput(), fmt.Sprintf("%s: %v", docid, err))
+		return
+	}
+	var sd struct {
+		History revTreeList `json:"history"`
+	}
+	if err := base.JSONUnmarshal(xattrs[base.SyncXattrName], &sd); err != nil {
+		e.failRec("revtree_reload", "persisted-revtree-unreadable", e.failInput(), fmt.Sprintf("%s: %v", docid, err))
+		return
+	}
+	rep := sd.History
+	flag := map[int]bool{}
+	for _, i := range rep.HasAttachments {
+		flag[i] = true
+	}
+	leaves := map[string]bool{}
+	for _, l := range doc.History.GetLeaves() {
+		leaves[l] = true
+	}
+	for i, id := range rep.Revs {
+		_, inl := rep.BodyMap[fmt.Sprint(i)]
+		_, ext := rep.BodyKeyMap[fmt.Sprint(i)]
+		info := doc.History[id]
+		if info == nil {
+			e.failRec("revtree_reload", "revtree-reload-loses-revision", e.failInput(), fmt.Sprintf("%s: persisted revision %s is not in the loaded tree", docid, id))
+			continue
+		}
+		switch {
+		case flag[i] && !info.HasAttachments:
+			e.failRec("revtree_reload", c14SigReloadFlagLost, e.failInput(), fmt.Sprintf("%s rev %s: listed in the stored hasAttachments, flag not set after loading (body inline=%v out-of-line=%v)", docid, id, inl, ext))
+		case !flag[i] && info.HasAttachments:
+			e.failRec("revtree_reload", c14SigReloadFlagAdded, e.failInput(), fmt.Sprintf("%s rev %s: not listed in the stored hasAttachments, flag set after loading", docid, id))
+		}
+		if inl != (info.Body != nil && info.BodyKey == "") || ext != (info.BodyKey != "") {
+			e.failRec("revtree_reload", c14SigReloadPlacement, e.failInput(), fmt.Sprintf("%s rev %s: stored inline=%v out-of-line=%v, loaded body=%v key=%q", docid, id, inl, ext, info.Body != nil, info.BodyKey))
+		}
+		if leaves[id] && id != doc.GetRevTreeID() {
+			d.pers[id] = [2]bool{flag[i], ext}
+		}
+	}
+}
+
+func (e *c14Env) persToCoq(o *c14Obs) string {
+	var docs []string
+	for di := 0; di < 2; di++ {
+		d := o.docs[di]
+		if !d.exists {
+			continue
+		}
+		var ids []string
+		for id := range d.pers {
+			ids = append(ids, id)
+		}
+		sort.Strings(ids)
+		var ls []string
+		for _, id := range ids {
+			ls = append(ls, fmt.Sprintf("(%s, %s, %s)", c14Rev(id), cqBool(d.pers[id][0]), cqBool(d.pers[id][1])))
+		}
+		docs = append(docs, fmt.Sprintf("(%d, %s)", di, cqList(ls)))
+	}
+	return cqList(docs)
+}
+
 func c14Project(a AttachmentsMeta) []string {
 	var out []string
 	for n, v := range a {
@@ -507,6 +589,9 @@ func (e *c14Env) body(op *c14Op) Body {
 	if op.deleted {
 		b[BodyDeleted] = true
 	}
+	if op.big {
+		b["pad"] = strings.Repeat("p", 4*MaximumInlineBodySize)
+	}
 	if len(op.atts) > 0 {
 		atts := map[string]any{}
 		for _, a := range op.atts {
@@ -576,7 +661,7 @@ func (e *c14Env) opDesc(op *c14Op, what string, rev string, out string) any {
 	if op.push {
 		api = "PutExistingRevWithBody"
 	}
-	return map[string]any{"event": what, "api": api, "doc": op.doc, "rev": rev, "parent": op.parent, "deleted": op.deleted, "atts": atts, "outcome": out, "label": op.label}
+	return map[string]any{"event": what, "api": api, "doc": op.doc, "rev": rev, "parent": op.parent, "deleted": op.deleted, "atts": atts, "outcome": out, "label": op.label, "large_body": op.big}
 }
 
 // the revision id a Try/Write event of op carries, given the document as it is now
@@ -613,10 +698,22 @@ func c14Classify(err error, cancelled bool) string {
 // record one event with the observation taken right after it, and run the monitors
 func (e *c14Env) record(kind string, op *c14Op, rev, out string) {
 	prev := e.last
+	// (described before observing, so that a failure reported while reading back shows the event that caused it)
+	e.descs = append(e.descs, e.opDesc(op, kind, rev, out))
 	now := e.observe()
 	e.events = append(e.events, fmt.Sprintf("%s %s", kind, e.opToCoq(op, rev)))
 	e.obsCoq = append(e.obsCoq, e.obsToCoq(out, &now))
-	e.descs = append(e.descs, e.opDesc(op, kind, rev, out))
+	e.persCoq = append(e.persCoq, e.persToCoq(&now))
+	for di := range now.docs {
+		for _, fx := range now.docs[di].pers {
+			if fx[0] && fx[1] {
+				e.kinds["flagged-out-of-line-leaf"] = true
+			}
+		}
+	}
+	if op.big && kind == "Write" && out == "OAck" {
+		e.bigRevs = append(e.bigRevs, rev)
+	}
 	e.monitors(kind, op, rev, out, &prev, &now)
 	e.last = now
 }
@@ -887,12 +984,22 @@ func (e *c14Env) monitors(kind string, op *c14Op, rev, out string, prev, now *c1
 
 func (e *c14Env) finishCase(stream string) {
 	coq := c14RankDigests(fmt.Sprintf("CHist %s %s %s %s", cqBool(e.ac), cqBool(e.sw), cqList(e.events), cqList(e.obsCoq)))
+	if e.bigMode {
+		var bigs []string
+		for _, rv := range e.bigRevs {
+			bigs = append(bigs, c14Rev(rv))
+		}
+		coq = c14RankDigests(fmt.Sprintf("CHistR %s %s %s %s %s %s", cqBool(e.ac), cqBool(e.sw), cqList(bigs), cqList(e.events), cqList(e.obsCoq), cqList(e.persCoq)))
+	}
 	var ks []string
 	for k := range e.kinds {
 		ks = append(ks, k)
 	}
 	sort.Strings(ks)
 	kind := "hist"
+	if e.bigMode {
+		kind = "hist-reload"
+	}
 	if e.ac {
 		kind += "-conflicts"
 	} else {
@@ -901,7 +1008,7 @@ func (e *c14Env) finishCase(stream string) {
 	if !e.sw {
 		kind += "-nosweep"
 	}
-	e.rec.Case(stream, kind, coq, map[string]any{"allow_conflicts": e.ac, "sweep": e.sw, "case": e.caseDesc, "events": e.descs}, e.nontriv)
+	e.rec.Case(stream, kind, coq, map[string]any{"allow_conflicts": e.ac, "sweep": e.sw, "case": e.caseDesc, "events": e.descs, "large_bodies": e.bigRevs}, e.nontriv)
 	e.rec.Size(fmt.Sprintf("events=%d", len(e.events)))
 }
 
@@ -1103,6 +1210,30 @@ func (e *c14Env) randomCase(r *vRand, adversarial bool, stream string) {
 	e.closeCase(stream)
 }
 
+// reloadCase: a history whose writes carry bodies on both sides of MaximumInlineBodySize, so that non-winning leaves
+// are kept inline in the rev tree or out of line in _sync:rb: documents; every request loads the document from the
+// bucket (and the observation after every event loads it again and flushes the revision cache), no forced retries.
+// Emitted as CHistR: the model reloads (marshal ; unmarshal) every document before every event and must reproduce,
+// besides everything a CHist case carries, the stored attachment flag and body placement of every non-current leaf
+func (e *c14Env) reloadCase(r *vRand, stream string) {
+	e.startCase(fmt.Sprintf("reload seed=%d", vSeed()))
+	e.bigMode = true
+	n := 3 + r.Intn(7)
+	for i := 0; i < n; i++ {
+		doc := 0
+		if r.Chance(20) {
+			doc = 1
+		}
+		op := e.genOp(r, doc, false, false)
+		if !op.deleted && r.Chance(60) {
+			op.big = true
+			e.kinds["large-body"] = true
+		}
+		e.runOp(op, nil)
+	}
+	e.closeCase(stream)
+}
+
 func (e *c14Env) closeCase(stream string) {
 	// non-trivial: at least one attachment was kept as a stub or dropped/replaced (the sweep had something to
 	// decide) and the case has a conflict, a tombstone, a resurrection or a retry
@@ -1113,6 +1244,10 @@ func (e *c14Env) closeCase(stream string) {
 			e.kinds["branch"] = true
 			e.nontriv = e.nontriv || e.kinds["keep"] || e.kinds["drop"] || e.kinds["replace"]
 		}
+	}
+	if e.bigMode {
+		// non-trivial (reload): at some point a non-current leaf was stored out of line AND carried the attachment flag
+		e.nontriv = e.kinds["flagged-out-of-line-leaf"]
 	}
 	e.finishCase(stream)
 }
@@ -1186,6 +1321,24 @@ func (e *c14Env) corpus() {
 	_ = e.put(0, u3, true)
 	e.kinds["keep"], e.kinds["drop"], e.kinds["tombstone"], e.kinds["branch"] = true, true, true, true
 	e.closeCase("corpus")
+
+	// the same with the losing leaf's body on either side of the inline limit (out of line: _sync:rb: + bodyKeyMap):
+	// the leaf's attachment flag has to survive every reload for the sweep to see the shared digest
+	for _, big := range []bool{false, true} {
+		e.startCase(fmt.Sprintf("corpus: losing leaf (large body=%v) shares a digest with the winner, the winner drops it, then is tombstoned", big))
+		e.bigMode = true
+		x1 := e.put(0, "", false)
+		x2 := e.put(0, x1, false, e.data(0, 5), e.data(1, 6))
+		lose := &c14Op{doc: 0, push: true, pushRev: c14PushID(3, 'a'), parent: x2, atts: []c14Att{e.keep(0, x2, 0), e.keep(1, x2, 0)}, big: big, label: "corpus"}
+		e.runOp(lose, nil)
+		e.push(0, c14PushID(3, 'b'), x2, false, e.keep(0, c14PushID(3, 'a'), 0))
+		e.push(0, c14PushID(4, 'b'), c14PushID(3, 'b'), false)
+		other := &c14Op{doc: 1, atts: []c14Att{e.data(0, 5)}, big: big, label: "corpus"}
+		e.runOp(other, nil)
+		e.push(0, c14PushID(5, 'b'), c14PushID(4, 'b'), false, e.data(2, 7))
+		e.kinds["keep"], e.kinds["drop"], e.kinds["branch"] = true, true, true
+		e.closeCase("corpus")
+	}
 
 	// finding B: tombstoning the winning branch sweeps the surviving branch's attachment
 	e.startCase("corpus: tombstone the winning branch, surviving branch is promoted")
@@ -1563,4 +1716,17 @@ func TestVerifC14(t *testing.T) {
 	// attachment compaction (harness/db/verif_c14_compact_test.go); last, so that the streams above see the same
 	// pseudo-random sequence as before it was added
 	c14Compaction(t, rec, r)
+	// persistence of the rev tree across reloads with bodies on both sides of the inline limit (CHistR cases); after
+	// everything else for the same reason
+	for _, c := range []cfg{{true, true}, {true, false}} {
+		e := c14NewEnv(t, rec, c.ac, c.sw, pool)
+		n := vBudget(200, 1200)
+		if !c.sw {
+			n = vBudget(30, 200)
+		}
+		for i := 0; i < n; i++ {
+			e.reloadCase(r, "reload")
+		}
+		e.close()
+	}
 }
